@@ -274,3 +274,7 @@ Example C13_phases_example :
   ps_cat s = Marked /\ pvisible s = [] /\ ps_files s = [[1]; [1]] /\
   pvisible (prun true (pround true s) [PCreate; PWrite 0]) = [2].
 Proof. vm_compute. repeat split; reflexivity. Qed.
+(* listings and selects agree at every point when the listing's catalogue walk skips marked objects as well *)
+Theorem C13_phases_listing_agrees_with_select : forall s, plisted true s = pvisible s.
+Proof. exact listed_consistent. Qed.
+Print Assumptions C13_phases_listing_agrees_with_select.
